@@ -83,13 +83,6 @@ theorem nextWhere_eq_find (p : Resp → Bool) (rs : List Resp) : nextWhere p rs 
     simp only [nextWhere, List.find?_cons]
     cases h : p r <;> simp [ih]
 
-theorem loop2_eq_find (rs : List Resp) : primaryB.loop2 rs = rs.find? (fun r => r.key.starts2) := by
-  induction rs with
-  | nil => rfl
-  | cons r rs ih =>
-    simp only [primaryB.loop2, List.find?_cons]
-    cases h : r.key.starts2 <;> simp [ih]
-
 theorem loopCodes_eq_byCode (rs : List Resp) (cs : List Nat) :
     primaryB.loopCodes rs cs = primaryA.byCode rs cs := by
   induction cs with
@@ -98,10 +91,244 @@ theorem loopCodes_eq_byCode (rs : List Resp) (cs : List Nat) :
 
 theorem primaryA_eq_primaryB (rs : List Resp) : primaryA rs = primaryB rs := by
   cases rs with
-  | nil => simp [primaryA, primaryB, primaryB.loopCodes, preferredCodes, nextWhere, primaryB.loop2]
+  | nil => simp [primaryA, primaryB, primaryB.loopCodes, preferredCodes, nextWhere, firstSortedWhere, minByKey]
   | cons r rs =>
     simp only [primaryA, primaryB, List.isEmpty_cons, Bool.false_eq_true, if_false, loopCodes_eq_byCode,
-      loop2_eq_find, nextWhere_eq_find, List.head?_cons]
+      nextWhere_eq_find]
+
+/-! ## `min` by status key: order lemmas and permutation invariance (C19) -/
+
+theorem strLt_irrefl (a : Str) : strLt a a = false := by
+  induction a with
+  | nil => rfl
+  | cons c cs ih => simp [strLt, ih]
+
+theorem strLt_trans {a b c : Str} (h1 : strLt a b = true) (h2 : strLt b c = true) : strLt a c = true := by
+  induction a generalizing b c with
+  | nil =>
+    cases b with
+    | nil => simp [strLt] at h1
+    | cons y ys => cases c with
+      | nil => simp [strLt] at h2
+      | cons z zs => simp [strLt]
+  | cons x xs ih =>
+    cases b with
+    | nil => simp [strLt] at h1
+    | cons y ys =>
+      cases c with
+      | nil => simp [strLt] at h2
+      | cons z zs =>
+        simp only [strLt] at h1 h2 ⊢
+        split at h1
+        · split at h2
+          · have : x.toNat < z.toNat := by omega
+            simp [this]
+          · split at h2
+            · cases h2
+            · have : x.toNat < z.toNat := by omega
+              simp [this]
+        · split at h1
+          · cases h1
+          · split at h2
+            · have : x.toNat < z.toNat := by omega
+              simp [this]
+            · split at h2
+              · cases h2
+              · have e1 : ¬ x.toNat < z.toNat := by omega
+                have e2 : ¬ z.toNat < x.toNat := by omega
+                simp only [e1, e2, if_false]
+                exact ih h1 h2
+
+theorem strLt_tri (a b : Str) : strLt a b = true ∨ a = b ∨ strLt b a = true := by
+  induction a generalizing b with
+  | nil => cases b <;> simp [strLt]
+  | cons x xs ih =>
+    cases b with
+    | nil => simp [strLt]
+    | cons y ys =>
+      simp only [strLt]
+      by_cases h1 : x.toNat < y.toNat
+      · simp [h1]
+      · by_cases h2 : y.toNat < x.toNat
+        · simp [h2]
+        · have hxy : x = y := by
+            have h3 : x.toNat = y.toNat := by omega
+            exact Char.ext (UInt32.toNat_inj.mp h3)
+          subst hxy
+          have hirr : ¬ x.toNat < x.toNat := Nat.lt_irrefl _
+          simp only [hirr, if_false, List.cons.injEq, true_and]
+          exact ih ys
+
+theorem strLt_asymm {a b : Str} (h : strLt a b = true) : strLt b a = false := by
+  cases h2 : strLt b a with
+  | false => rfl
+  | true => have := strLt_trans h h2; rw [strLt_irrefl] at this; cases this
+
+theorem inj_of_nodup_map {α β} {f : α → β} {l : List α} (h : (l.map f).Nodup) {a b : α}
+    (ha : a ∈ l) (hb : b ∈ l) (e : f a = f b) : a = b := by
+  induction l with
+  | nil => cases ha
+  | cons x xs ih =>
+    rw [List.map_cons, List.nodup_cons] at h
+    rcases List.mem_cons.mp ha with hax | ha'
+    · rcases List.mem_cons.mp hb with hbx | hb'
+      · rw [hax, hbx]
+      · exact absurd (List.mem_map.mpr ⟨b, hb', by rw [← e, hax]⟩) h.1
+    · rcases List.mem_cons.mp hb with hbx | hb'
+      · exact absurd (List.mem_map.mpr ⟨a, ha', by rw [e, hbx]⟩) h.1
+      · exact ih h.2 ha' hb'
+
+/-- `m` is a minimum of `l` for the key order. -/
+def IsMinKey (l : List Resp) (m : Resp) : Prop := m ∈ l ∧ ∀ x ∈ l, strLt x.key.str m.key.str = false
+
+theorem minByKey_none {l : List Resp} : minByKey l = none ↔ l = [] := by
+  cases l with
+  | nil => simp [minByKey]
+  | cons r rs =>
+    simp only [minByKey, reduceCtorEq, iff_false]
+    split
+    · simp
+    · split <;> simp
+
+theorem minByKey_isMin {l : List Resp} {m : Resp} (h : minByKey l = some m) : IsMinKey l m := by
+  induction l generalizing m with
+  | nil => simp [minByKey] at h
+  | cons r rs ih =>
+    simp only [minByKey] at h
+    split at h
+    · next hn =>
+      cases h
+      have : rs = [] := minByKey_none.mp hn
+      subst this
+      exact ⟨List.mem_cons_self .., fun x hx => by
+        have : x = r := by simpa using hx
+        subst this; exact strLt_irrefl _⟩
+    · next m' hm' =>
+      have hmin := ih hm'
+      split at h
+      · next hlt =>
+        cases h
+        refine ⟨List.mem_cons_of_mem _ hmin.1, fun x hx => ?_⟩
+        rcases List.mem_cons.mp hx with rfl | hx
+        · exact strLt_asymm hlt
+        · exact hmin.2 x hx
+      · next hnlt =>
+        cases h
+        refine ⟨List.mem_cons_self .., fun x hx => ?_⟩
+        rcases List.mem_cons.mp hx with rfl | hx
+        · exact strLt_irrefl _
+        · have hxm := hmin.2 x hx
+          cases hxr : strLt x.key.str r.key.str with
+          | false => rfl
+          | true =>
+            exfalso
+            rcases strLt_tri m'.key.str r.key.str with h1 | h1 | h1
+            · exact hnlt h1
+            · rw [← h1] at hxr; rw [hxr] at hxm; cases hxm
+            · have := strLt_trans hxr h1; rw [this] at hxm; cases hxm
+
+theorem isMinKey_unique {l : List Resp} (hnd : (l.map (·.key.str)).Nodup) {m m' : Resp}
+    (h : IsMinKey l m) (h' : IsMinKey l m') : m = m' := by
+  have e : m.key.str = m'.key.str := by
+    rcases strLt_tri m.key.str m'.key.str with h1 | h1 | h1
+    · have := h'.2 m h.1; rw [h1] at this; cases this
+    · exact h1
+    · have := h.2 m' h'.1; rw [h1] at this; cases this
+  exact inj_of_nodup_map hnd h.1 h'.1 e
+
+theorem minByKey_perm {l l' : List Resp} (hp : l.Perm l') (hnd : (l.map (·.key.str)).Nodup) :
+    minByKey l = minByKey l' := by
+  cases h : minByKey l with
+  | none =>
+    have : l = [] := minByKey_none.mp h
+    subst this
+    have : l' = [] := List.Perm.eq_nil (hp.symm) |> fun e => by simpa using hp.symm.eq_nil
+    subst this; rfl
+  | some m =>
+    cases h' : minByKey l' with
+    | none =>
+      have : l' = [] := minByKey_none.mp h'
+      subst this
+      have : l = [] := hp.eq_nil
+      subst this
+      simp [minByKey] at h
+    | some m' =>
+      have hm := minByKey_isMin h
+      have hm' := minByKey_isMin h'
+      have hm'' : IsMinKey l m' := ⟨hp.mem_iff.mpr hm'.1, fun x hx => hm'.2 x (hp.mem_iff.mp hx)⟩
+      rw [isMinKey_unique hnd hm hm'']
+
+theorem nodup_map_filter {α β} (f : α → β) (p : α → Bool) {l : List α} (h : (l.map f).Nodup) :
+    ((l.filter p).map f).Nodup := by
+  induction l with
+  | nil => simp
+  | cons a l ih =>
+    rw [List.map_cons, List.nodup_cons] at h
+    simp only [List.filter_cons]
+    split
+    · rw [List.map_cons, List.nodup_cons]
+      refine ⟨fun hm => h.1 ?_, ih h.2⟩
+      obtain ⟨b, hb, hbe⟩ := List.mem_map.mp hm
+      exact List.mem_map.mpr ⟨b, (List.mem_filter.mp hb).1, hbe⟩
+    · exact ih h.2
+
+theorem firstSortedWhere_perm (p : Resp → Bool) {l l' : List Resp} (hp : l.Perm l')
+    (hnd : (l.map (·.key.str)).Nodup) : firstSortedWhere p l = firstSortedWhere p l' :=
+  minByKey_perm (hp.filter p) (nodup_map_filter _ p hnd)
+
+/-- `find?` is permutation invariant when at most one element can satisfy the predicate. -/
+theorem find?_perm_of_unique {p : Resp → Bool} {l l' : List Resp} (hp : l.Perm l')
+    (hu : ∀ a ∈ l, ∀ b ∈ l, p a = true → p b = true → a = b) : l.find? p = l'.find? p := by
+  cases h : l.find? p with
+  | none =>
+    symm; rw [List.find?_eq_none] at h ⊢
+    exact fun x hx => h x (hp.mem_iff.mpr hx)
+  | some a =>
+    have ha := List.mem_of_find?_eq_some h
+    have hpa := List.find?_some h
+    cases h' : l'.find? p with
+    | none =>
+      rw [List.find?_eq_none] at h'
+      exact absurd hpa (h' a (hp.mem_iff.mp ha))
+    | some b =>
+      have hb := List.mem_of_find?_eq_some h'
+      have hpb := List.find?_some h'
+      rw [hu a ha b (hp.mem_iff.mpr hb) hpa hpb]
+
+theorem isCode_str {r : Resp} {c : Nat} (h : r.key.isCode c = true) : r.key.str = natStr c := by
+  cases hk : r.key <;> simp [hk, StatusKey.isCode] at h
+  subst h; rfl
+
+theorem isDefault_str {r : Resp} (h : r.key.isDefault = true) : r.key.str = "default".toList := by
+  cases hk : r.key <;> simp [hk, StatusKey.isDefault] at h
+  rfl
+
+theorem byCode_perm {l l' : List Resp} (hp : l.Perm l') (hnd : (l.map (·.key.str)).Nodup) (cs : List Nat) :
+    primaryA.byCode l cs = primaryA.byCode l' cs := by
+  induction cs with
+  | nil => rfl
+  | cons c cs ih =>
+    simp only [primaryA.byCode]
+    rw [find?_perm_of_unique hp (fun a ha b hb h1 h2 =>
+      inj_of_nodup_map hnd ha hb ((isCode_str h1).trans (isCode_str h2).symm)), ih]
+
+/-- The repaired selection does not depend on the order in which the responses are listed. -/
+theorem primaryA_perm {l l' : List Resp} (hp : l.Perm l') (hnd : (l.map (·.key.str)).Nodup) :
+    primaryA l = primaryA l' := by
+  unfold primaryA
+  have he : l.isEmpty = l'.isEmpty := by
+    cases l with
+    | nil => have := hp.symm.eq_nil; subst this; rfl
+    | cons a as =>
+      cases l' with
+      | nil => exact absurd hp.eq_nil (by simp)
+      | cons b bs => rfl
+  have hd : l.find? (fun r => r.key.isDefault) = l'.find? (fun r => r.key.isDefault) :=
+    find?_perm_of_unique hp (fun a ha b hb h1 h2 =>
+      inj_of_nodup_map hnd ha hb ((isDefault_str h1).trans (isDefault_str h2).symm))
+  rw [he, byCode_perm hp hnd, firstSortedWhere_perm _ hp hnd, minByKey_perm hp hnd, hd]
+
+theorem minByKey_mem {l : List Resp} {m : Resp} (h : minByKey l = some m) : m ∈ l := (minByKey_isMin h).1
 
 theorem byCode_mem {rs : List Resp} {cs : List Nat} {p : Resp} (h : primaryA.byCode rs cs = some p) :
     p ∈ rs := by
@@ -120,12 +347,10 @@ theorem primaryA_mem {rs : List Resp} {p : Resp} (h : primaryA rs = some p) : p 
   · split at h
     · next r hr => cases h; exact byCode_mem hr
     · split at h
-      · next r hr => cases h; exact List.mem_of_find?_eq_some hr
+      · next r hr => cases h; exact (List.mem_filter.mp (minByKey_mem hr)).1
       · split at h
         · next r hr => cases h; exact List.mem_of_find?_eq_some hr
-        · cases rs with
-          | nil => cases h
-          | cons x xs => simp only [List.head?_cons, Option.some.injEq] at h; subst h; exact List.mem_cons_self ..
+        · exact minByKey_mem h
 
 /-- What `processedPrimary` yields: a member of the list whose key is the numeric `n`, starting with `2`,
     and it is the primary response of BOTH copies. -/
